@@ -171,3 +171,33 @@ Definition P_handler (desired : version) (chain : list rule) (outs : list outcom
   && runs_to_end desired chain outs trace
   && verdict_ok desired chain outs req trace ans
   && (match chain, req with _ :: _, _ :: _ => nonempty trace | _, _ => true end).
+
+(* ---------------------------------------------------------------- part 3: several requests, hooks with settings
+
+   The text speaks of "a request": every request is judged on its own, whatever was asked
+   before it and however the hooks are configured - a hook's execution-rate settings
+   (settings.executionMinInterval / executionBurst) are not mentioned by the text, so they
+   give no licence to skip a step or to fail a request: nothing is added to P_handler and
+   nothing is taken away.  (How LONG a step is held back is the business of the rate
+   limit, property C18, not of this one.)
+
+   Domain: the configuration allows the hook to be executed at all.  HOOKS.md:
+   "executionBurst: a number of allowed executions during a period"; a negative number
+   together with a positive interval allows none - such a hook is never executed for any
+   of its bindings, conversion included, and "its hook is invoked" cannot be demanded.
+   Interval <= 0 means no limit; burst 0 means the default (1). *)
+Definition runnable (s : option hsettings) : bool :=
+  match s with
+  | None => true
+  | Some (interval, burst) => (interval <=? 0)%Z || (0 <=? burst)%Z
+  end.
+Definition settings_in_domain (hsets : list (option hsettings)) : bool := forallb runnable hsets.
+
+(* the requests of a session (C15_Model.squery) with what was observed for each: every one judged *)
+Fixpoint all_P_session (qs : list squery) (res : list (list invocation * review)) : bool :=
+  match qs, res with
+  | [], [] => true
+  | (_, desired, chain, outs, req) :: qs', (t, a) :: res' =>
+    P_handler desired chain outs req t a && all_P_session qs' res'
+  | _, _ => false
+  end.
